@@ -306,6 +306,12 @@ def rejoin_conflict(ctx, p):
     for k in range(p["fresh"]):
         s.submit(l2, 200 + k)
     _alive_run(s, 10, among=[n2, n3])
+    if p.get("compact"):
+        # the voters in office compact their logs: the observer can only be caught up by a snapshot whose last index
+        # lies where it holds a stale, uncommitted entry of the old leader's term
+        for v in (n2, n3):
+            s.compact(v)
+        _alive_run(s, 4, among=[n2, n3])
     # the observer leaves the old leader and joins the leader in office
     s.disconnect("o0", ldr)
     s.connect("o0", l2)
@@ -390,6 +396,9 @@ def gen(ctx):
             out.append({"kind": "churn", "nv": nv, "no": no, "steps": 30, "seed": 11 + no})
     for stale in (4, 9):
         out.append({"kind": "rejoin_conflict", "nv": 3, "no": 1, "stale": stale, "fresh": 12, "B": 64, "seed": 41 + stale})
+    for (stale, fresh) in ((3, 2), (3, 1), (6, 3), (6, 5), (9, 4)):
+        out.append({"kind": "rejoin_conflict", "nv": 3, "no": 1, "stale": stale, "fresh": fresh, "B": 65536, "compact": True,
+                    "seed": 61 + stale + fresh})
     for obs in ("a0", "o0", "w0", "zz"):          # ids that sort / hash before and after the voters' ids
         out.append({"kind": "slow_catchup", "nv": 3, "no": 1, "obs": obs, "backlog": 300, "cost": 0.02, "settle": 20.0, "seed": 51})
     for stale in (10, 3, 0):
